@@ -42,6 +42,9 @@ pub struct Prog {
     root: R,
     pub ngroups: usize,
     pub nnodes: usize,
+    /// loop semantics for an empty iteration of an unbounded greedy loop beyond its minimum count:
+    /// false = Perl (the empty iteration ends the loop), true = the VM's documented rule (it is rejected)
+    pub vm_loops: bool,
 }
 
 #[derive(Clone, Copy, Default)]
@@ -178,7 +181,7 @@ pub fn compile(n: &Node) -> Prog {
 pub fn compile_with(n: &Node, casei: bool) -> Prog {
     let mut c = Comp { next_id: 0, next_group: 0 };
     let root = c.c(n, Fl { i: casei, ..Fl::default() });
-    Prog { root, ngroups: c.next_group, nnodes: c.next_id }
+    Prog { root, ngroups: c.next_group, nnodes: c.next_id, vm_loops: false }
 }
 
 #[derive(Clone, Debug, PartialEq, Eq)]
@@ -197,6 +200,7 @@ pub struct M<'t> {
     /// current recursion depth of the interpreter (bounded, so that the naive interpreter itself cannot overflow the native stack)
     pub depth: u32,
     pub backtracks: u64,
+    pub vm_loops: bool,
     /// per node id: bit set of matched lengths in characters (only when observing)
     pub obs: Option<Vec<u64>>,
     /// per node id: number of times a conditional took the yes (bit 0) / no (bit 1) branch
@@ -233,6 +237,7 @@ impl<'t> M<'t> {
             exhausted: false,
             depth: 0,
             backtracks: 0,
+            vm_loops: false,
             obs: None,
             cond_taken: None,
         }
@@ -554,6 +559,9 @@ impl<'t> M<'t> {
         if greedy {
             let r = self.m(c, pos, st, &mut |s, p, st| {
                 if unbounded && p == pos {
+                    if s.vm_loops {
+                        return false;
+                    }
                     return k(s, p, st);
                 }
                 s.rep(c, lo, hi, greedy, count + 1, p, st, k)
@@ -618,6 +626,7 @@ pub fn search(prog: &Prog, text: &str, from: usize, skipped_empty: bool) -> (Ref
 
 pub fn search_with(prog: &Prog, text: &str, from: usize, mut o: SearchOpts<'_>) -> (RefResult, RefStats) {
     let mut m = M::new(text, from);
+    m.vm_loops = prog.vm_loops;
     m.skipped_empty = o.skipped_empty;
     m.budget = o.budget;
     if let Some(v) = o.obs.as_mut() {
